@@ -13,6 +13,27 @@ SHAPES = [(), (5,), (2, 3), (1, 4)]
 DCLASS = [1e-3, 1e-2, 0.1, 1.0, 3.0, 8.0]
 MODELS = ["poincare", "halfspace"]
 
+# every accepted way of naming a model (the enum member, any alias, any case):
+# the answers must not depend on the spelling (seeded change C14-r3-1: a
+# dispatch table keyed on the canonical lower-case strings only)
+SPELLINGS = {
+    "poincare": ["poincare", "MEMBER:POINCARE", "Poincare", "POINCARE"],
+    "halfspace": ["halfspace", "MEMBER:HALFSPACE", "halfplane", "HALFPLANE", "HalfSpace", "MEMBER:HALFPLANE"],
+    "klein": ["klein", "MEMBER:KLEIN", "Klein", "kleinian", "AFFINE", "MEMBER:AFFINE"],
+}
+_spell = {"n": 0, "used": {}}
+
+
+def sp(model):
+    from geometry_tools import hyperbolic as H
+    opts = SPELLINGS[model]
+    _spell["n"] += 1
+    o = opts[_spell["n"] % len(opts)]
+    _spell["used"][o] = _spell["used"].get(o, 0) + 1
+    if o.startswith("MEMBER:"):
+        return getattr(H.Model, o[7:])
+    return o
+
 
 def lib():
     from geometry_tools import hyperbolic as H
@@ -33,8 +54,8 @@ def second_point(rng, P, d):
 def units_check(run, obj, model, what):
     """degrees == radians * 180/pi and identical centre/radius."""
     mon = run.monitor("units")
-    cd, rd, td = obj.circle_parameters(model=model, degrees=True)
-    cr, rr, tr = obj.circle_parameters(model=model, degrees=False)
+    cd, rd, td = obj.circle_parameters(model=sp(model), degrees=True)
+    cr, rr, tr = obj.circle_parameters(model=sp(model), degrees=False)
     td = np.asarray(td, dtype=float)
     tr = np.asarray(tr, dtype=float)
     if not (np.all(np.isfinite(td)) and np.all(np.isfinite(tr))):
@@ -53,7 +74,7 @@ def exercise_segment(run, seg, model_list=MODELS, ideal=True):
         units_check(run, seg, model, "Segment")
     if ideal:
         for model in ("klein", "poincare", "halfspace"):
-            seg.ideal_endpoint_coords(model)
+            seg.ideal_endpoint_coords(sp(model))
 
 
 # ---------------------------------------------------------------------------
@@ -108,7 +129,7 @@ def wl_origin(run, rng, idx):
         for model in MODELS:
             if model == "halfspace" and np.min(rc.inf_distance(e)) < 0.05:
                 continue
-            g.circle_parameters(model=model, degrees=False)
+            g.circle_parameters(model=sp(model), degrees=False)
     run.note_class("origin", n, foot, shape)
 
 
@@ -137,7 +158,7 @@ def wl_ideal(run, rng, idx):
         exercise_segment(run, seg)
         g = seg.geodesic()
         for model in MODELS:
-            g.circle_parameters(model=model, degrees=bool(idx % 2))
+            g.circle_parameters(model=sp(model), degrees=bool(idx % 2))
     else:                   # Geodesic objects
         if n == 2:
             t1 = rng.uniform(0, 2 * math.pi, size=shape)
@@ -147,8 +168,8 @@ def wl_ideal(run, rng, idx):
             g = H.Geodesic(H.IdealPoint(rh.klein_to_proj(e1)), H.IdealPoint(rh.klein_to_proj(e2)))
         for model in MODELS:
             mon = run.monitor("units")
-            cd, rd, td = g.circle_parameters(model=model, degrees=True)
-            cr, rr, tr = g.circle_parameters(model=model, degrees=False)
+            cd, rd, td = g.circle_parameters(model=sp(model), degrees=True)
+            cr, rr, tr = g.circle_parameters(model=sp(model), degrees=False)
             td, tr = np.asarray(td, float), np.asarray(tr, float)
             if np.all(np.isfinite(td)) and np.all(np.isfinite(tr)):
                 mon.judge(float(np.max(np.abs(td - tr * 180 / math.pi))) if td.size else 0.0, 1e-9,
@@ -196,7 +217,7 @@ def wl_cone(run, rng, idx):
         e = rc.ideal_endpoints(kp, kq)
         g = H.Geodesic(H.IdealPoint(rh.klein_to_proj(e[..., 0, :])),
                        H.IdealPoint(rh.klein_to_proj(e[..., 1, :])))
-        g.circle_parameters(model="halfspace", degrees=False)
+        g.circle_parameters(model=sp("halfspace"), degrees=False)
     run.note_class("cone", n, delta, which, shape)
 
 
@@ -334,7 +355,7 @@ def wl_horoarcs(run, rng, idx):
     for model in MODELS:
         for degrees in (True, False):
             try:
-                results[(model, degrees)] = ha.circle_parameters(model=model, degrees=degrees)
+                results[(model, degrees)] = ha.circle_parameters(model=sp(model), degrees=degrees)
             except Exception as ex:
                 cls = "unit" if shape == () else "composite"
                 mon.fail("horoarc/exception:%s/%s" % (type(ex).__name__, cls),
@@ -353,7 +374,7 @@ def wl_horoarcs(run, rng, idx):
         cc, rr, tt = results[("poincare", False)]
         i = int(rng.integers(shape[0]))
         try:
-            cu, ru, tu = ha[i].circle_parameters(model="poincare", degrees=False)
+            cu, ru, tu = ha[i].circle_parameters(model=sp("poincare"), degrees=False)
             dev = float(np.max(np.abs(np.exp(1j * np.asarray(tu)) - np.exp(1j * np.asarray(tt)[i]))))
             dev = max(dev, float(np.max(np.abs(np.asarray(cu) - np.asarray(cc)[i]))))
             mon.judge(dev, 1e-9, "horoarc/unit-differs-from-composite",
@@ -399,7 +420,7 @@ def wl_subspaces(run, rng, idx):
         arg = normal if shape == () else normal[..., None, :]
         hp = H.Hyperplane(arg)
         for model in MODELS:
-            hp.sphere_parameters(model)
+            hp.sphere_parameters(sp(model))
         try:
             hp.boundary_sphere_parameters()
         except Exception:
@@ -433,7 +454,7 @@ def wl_subspaces(run, rng, idx):
             if model == "halfspace" and base._ctx.get("extra_ideal") is not None:
                 if np.min(rc.inf_distance(base._ctx["extra_ideal"])) < 0.1:
                     base._ctx.pop("extra_ideal")
-            S.sphere_parameters(model)
+            S.sphere_parameters(sp(model))
         if k == n:
             S.boundary_sphere_parameters()
     finally:
@@ -483,3 +504,17 @@ WORKLOADS = [
     Workload("subspaces", wl_subspaces, quick=240, thorough=7200),
     Workload("arc-utils", wl_arc_utils, quick=80, thorough=2400),
 ]
+
+
+def _per_case_spelling(fn):
+    """the spelling rotation restarts from the case index, so that a case
+    replayed on its own names the models exactly as it did in the run."""
+    def wrapped(run, rng, idx):
+        _spell["n"] = idx
+        return fn(run, rng, idx)
+    wrapped.__name__ = fn.__name__
+    return wrapped
+
+
+for _w in WORKLOADS:
+    _w.fn = _per_case_spelling(_w.fn)
